@@ -205,7 +205,7 @@ class QConv2DBatchnorm(QConv2D):
         keep_dims=keep_dims)
     # get batchnorm weights
     gamma = self.batchnorm.gamma
-    beta = self.batchnorm.beta
+    beta = self.batchnorm.beta if self.batchnorm.center else 0
     moving_mean = self.batchnorm.moving_mean
     moving_variance = self.batchnorm.moving_variance
 
@@ -344,7 +344,7 @@ class QConv2DBatchnorm(QConv2D):
 
     # get batchnorm weights and moving stats
     gamma = self.batchnorm.gamma
-    beta = self.batchnorm.beta
+    beta = self.batchnorm.beta if self.batchnorm.center else 0
     moving_mean = self.batchnorm.moving_mean
     moving_variance = self.batchnorm.moving_variance
     # get the inversion factor so that we replace division by multiplication
